@@ -117,8 +117,12 @@ EXTRA = ("block_writes", "arrays_compared", "backing_arrays_compared")
 
 
 def run_shard(spec, workdir):
-    return _rc.run_cases(spec, workdir, prop=PROPERTY, judge=judge, extra_counters=EXTRA, monitors=("block",),
-                         choose_cfgs=choose_cfgs, run_kw={"keep_vals": True})
+    # budget split: odd shards never generate zero-length dimensions (open finding KF-zero-size-chunk-arith)
+    allow_zero = spec.get("shard", 0) % 2 == 0
+    res = _rc.run_cases(spec, workdir, prop=PROPERTY, judge=judge, extra_counters=EXTRA, monitors=("block",),
+                        choose_cfgs=choose_cfgs, run_kw={"keep_vals": True}, gen_kw={"allow_zero": allow_zero})
+    res["counters"]["runs_avoiding_open_findings" if not allow_zero else "runs_free_to_hit_open_findings"] = res["counters"]["runs"]
+    return res
 
 
 def replay(rep, workdir):
